@@ -496,7 +496,14 @@ fn cmd_witness(args: &[String]) {
     let prop = props::get(&args[0]).expect("unknown property");
     let width: usize = args[1].parse().unwrap();
     let cfg = Cfg::decode(&args[2]).expect("bad cfg");
-    let c = Case::new(util::unhex(&args[3]), cfg, width, "witness");
+    let mut c = Case::new(util::unhex(&args[3]), cfg, width, "witness");
+    if let Some(a) = args.get(4) {
+        c.aux = String::from_utf8_lossy(&util::unhex(a)).to_string();
+    }
+    if let Some(s) = args.get(5) {
+        // the stream label some oracles look at (leaked: lives for the process)
+        c.stream = Box::leak(s.clone().into_boxed_str());
+    }
     let o = obs::run_impl(&c.html, &c.cfg, c.width, prop.timeout());
     println!("OUTCOME {}", o.short());
     for v in prop.oracle(&c, &o) {
